@@ -35,6 +35,7 @@ type Up4Params struct {
 	Snap      bool   `json:"snap"`
 	Race      bool   `json:"race"`
 	Wide      bool   `json:"wide"`    // boundary values (C16)
+	Pfd       bool   `json:"pfd"` // the application filters are provisioned as PFDs and half of the flows name the application (C08 on UP4)
 	Markers   int    `json:"markers"` // C14: 1 = end markers enabled and asked for, 2 = asked for but disabled in the configuration
 }
 
@@ -130,6 +131,7 @@ func e2eUp4Worker(args []string) error {
 		g.AddFlows = p.AddFlows
 		g.UEAlloc = w.Cfg.UEIPAlloc
 		g.EndMarkers = p.Markers != 0
+		g.UsePfd = p.Pfd
 
 		for i := 0; i < p.Steps; i++ {
 			if !g.Step() {
@@ -235,7 +237,7 @@ func C04(c *core.Ctx) {
 		}
 
 		return "e2e-up4", Up4Params{Dir: d, Trace: tr, AgentBin: filepath.Join(c.BinDir, "verif-agent"), N4Addr: n4For(i), Seed: c.Seed*1000 + int64(i), Scenarios: scen, Steps: steps,
-			Kill: i%2 == 0, AddFlows: i%3 != 2, Snap: true, Wide: i%3 == 1}
+			Kill: i%2 == 0, AddFlows: i%3 != 2, Snap: true, Wide: i%3 == 1, Pfd: i%2 == 1}
 	})
 	judgeE2E(c, res, map[string]bool{"InEnvelope": true, "Up4Envelope": true})
 }
